@@ -5,11 +5,3 @@ package rules
 var NotApplicable = map[string]string{
 	"C06": "equates every entry of the merged vector clock with a graph quantity (max sequence / fork existence) for all DAGs and indexing orders; no sound static argument in reach bounds those runtime values, and the only structural facts (fork marker absorbing, consumers use the merged API) are decided under C03 — claiming C06 through them would misstate what is decided",
 }
-
-func init() {
-	for _, id := range []string{"C01", "C02", "C03", "C04", "C05", "C07", "C08", "C09", "C10", "C11", "C12", "C13", "C14", "C15", "C16", "C17", "C18", "C19", "C20", "C21", "C22", "C23", "C24", "C25", "C26", "C27", "C28", "C29", "C30", "C31", "C32", "C33"} {
-		if _, ok := NotApplicable[id]; !ok {
-			NotApplicable[id] = "rules for this property are designed (DESIGN.md §4) but not yet built in the checker; not claimed until they are"
-		}
-	}
-}
